@@ -26,6 +26,8 @@ EXPLANATION = (
     ' R17.5: `path + b` works on copy(path) = Path(path), which takes over the values dictionary including a'
     " `d` text; the constructor's parse of values[d] must be guarded by a marker read from values, and the"
     ' guarded block must set it.'
+    " R17.6: the junction of a concatenation is linked by copies of the end points (C18's"
+    ' linked_points_are_copies).'
 )
 TECHNIQUE = (
     "static analysis (no execution): effect analysis (which attributes the lexer stores and the builders read); cursor-independence lint of the dispatch; operator type-dispatch following for += / +"
